@@ -118,6 +118,10 @@ func (lf *layoutFacts) checkEncVsSpec(p *Program, r *Result, rule string) {
 			r.held(rule, fname, "opcode of "+k.Spec, pos, fmt.Sprintf("%s = 0x%02x as specified", k.OpConst, v))
 		}
 		if d := layoutDiff(enc.toks, sp.Toks, aliasesFor(k.Spec), false); d != "" {
+			if why := lf.g.encoderBlind(findFuncDecl(lf.g, k.Encoder)); why != "" {
+				r.abstain(rule, fname, "layout of "+k.Spec, pos, "the encoder moves its bytes through a form the layout extractor does not model ("+why+")")
+				continue
+			}
 			r.violated(rule, fname, "layout of "+k.Spec, pos, "encoder disagrees with the specification: "+d+" | encoder: "+layoutString(enc.toks)+" | spec: "+layoutString(sp.Toks))
 		} else {
 			r.held(rule, fname, "layout of "+k.Spec, pos, layoutString(enc.toks))
@@ -136,6 +140,10 @@ func (lf *layoutFacts) checkDecVsSpec(p *Program, r *Result, rule string) {
 		}
 		prefixOK := k.Spec == "Attachment" // streaming: data and crc are read by the AttachmentReader
 		if d := layoutDiff(dec.toks, sp.Toks, aliasesFor(k.Spec), prefixOK); d != "" {
+			if why := lf.g.decoderBlind(findFuncDecl(lf.g, k.Decoder)); why != "" {
+				r.abstain(rule, fname, "layout of "+k.Spec, p.pos(dec.pos), "the decoder reads the record through a form the layout extractor does not model ("+why+")")
+				continue
+			}
 			r.violated(rule, fname, "layout of "+k.Spec, p.pos(dec.pos), "decoder disagrees with the specification: "+d+" | decoder: "+layoutString(dec.toks)+" | spec: "+layoutString(sp.Toks))
 		} else {
 			r.held(rule, fname, "layout of "+k.Spec, p.pos(dec.pos), layoutString(dec.toks))
